@@ -64,7 +64,7 @@ CHECKS.update({
    note="_partial; K1 open finding.",
    technique="Coq proof per micro-operation + differential correspondence + oracle", ref="DESIGN.md §6 C08"),
  'C09': dict(
-   text="Whole-run Coq theorem (all rules, arithmetics, profiles, fuel): round numbers in the record never decrease and every recorded round lies between 0 and the current round (monotone-history preorder lifted by exec_steps); for every rule except QPQ (whose restart un-elects, as the property allows) statuses only move forward between ANY two snapshots of a count that ends normally, from the initial statuses to each snapshot and from each snapshot to the final statuses (hopeful -> elected[pending -> not pending] | defeated; withdrawn fixed). Seat bounds are FALSE for meek under guarded arithmetic with guard>0 (refuted Example inside Coq: 4 elected for 3 seats; open finding K13); seat bounds, QPQ transitions and crashed runs otherwise: states-scope correspondence + transition oracle on every pair of consecutive snapshots.",
+   text="Whole-run Coq theorem (all rules, arithmetics, profiles, fuel): round numbers in the record never decrease and every recorded round lies between 0 and the current round (monotone-history preorder lifted by exec_steps); for every rule except QPQ (whose restart un-elects, as the property allows) statuses only move forward between ANY two snapshots of a count that ends normally, from the initial statuses to each snapshot and from each snapshot to the final statuses (hopeful -> elected[pending -> not pending] | defeated; withdrawn fixed). Seats are never over-committed: whole-run theorem for wigm, wigm-prf, wigm-prf-batch and scotland under Fixed/integer/Guarded(guard 0) -- a count that ends normally has elected at most `seats` candidates (every winner of the main loop holds the quota, the quota exceeds ballots/(seats+1), no votes are created, the epilogues elect only while seats remain). The bound is FALSE for meek under guarded arithmetic with guard>0 (refuted Example inside Coq: 4 elected for 3 seats; open finding K13). Seat bounds for cfer/mpls/Meek/QPQ, under-commitment, QPQ transitions and crashed runs: states-scope correspondence + transition oracle on every pair of consecutive snapshots.",
    note="Seat-bound clause _partial (oracle + correspondence + machine-checked refutation for meek/guarded).",
    technique="Coq whole-run proof (monotone history) + differential correspondence + oracle", ref="DESIGN.md §6 C09"),
  'C10': dict(
